@@ -19,7 +19,7 @@ _prog = None
 def fixture_prog():
     global _prog
     if _prog is None:
-        facts = extract("dev", repo=os.path.join(VERIF, "fixtures"), crate="nsfix", floor=12)
+        facts = extract("dev", repo=os.path.join(VERIF, "fixtures"), crate="nsfix", floor=14)
         _prog = Program(facts)
     return _prog
 
@@ -110,7 +110,21 @@ def fx_r10(prog):
     return False
 
 
-FIXTURES = {"R1": fx_r1, "R8": fx_r8, "R9": fx_r9, "R14": fx_r14, "R3": fx_r3, "R4": fx_r4, "R5": fx_r5, "R6": fx_r6,
+def fx_r21(prog):
+    from . import rules_segments as RSG
+    c = Ctx("FX")
+    RSG.rule_r21_compaction(c, prog, body=prog.find("fix_r21_wrong_prefix"))
+    return any((not o["ok"]) and "rest-is-nan" in o["key"] for o in c.obs)
+
+
+def fx_r22(prog):
+    from . import rules_segments as RSG
+    c = Ctx("FX")
+    RSG.rule_r22_partition(c, prog, body=prog.find("fix_r22_not_strict"))
+    return any((not o["ok"]) and "left-strictly-smaller" in o["key"] for o in c.obs)
+
+
+FIXTURES = {"R21": fx_r21, "R22": fx_r22, "R1": fx_r1, "R8": fx_r8, "R9": fx_r9, "R14": fx_r14, "R3": fx_r3, "R4": fx_r4, "R5": fx_r5, "R6": fx_r6,
             "R18": fx_r18, "R19": fx_r19, "R10": fx_r10}
 
 
